@@ -8,6 +8,7 @@ Records added to the TapEnvironment log (G = global action number, st = kernel s
   ('SN', G, now, st, snapshot)                                state after a kernel step
   ('BD', G, now, snapshot)                                    state at an instant boundary (clock about to advance)
 """
+import copy
 from .core import san
 from .tap import TapEnvironment, EmptySchedule, StopSimulation
 from onl.packet import Packet
@@ -222,6 +223,17 @@ def use(w, pid, i, op):
         if op.get('abandon'):
             w.rec('S', pid, i, rid, 'abandoned')
             raise _Abandon()
+        inner = op.get('inner')
+        if inner:
+            # while holding this slot the process also competes for a slot of a second, preemptive resource; an eviction
+            # there (Interrupt(Preempted) of the *other* resource) travels out through this resource's with-block as well
+            phase = 'inner'
+            if getattr(w, 'res2', None) is None:
+                w.res2 = PreemptiveResource(env, capacity=1)
+            w.rec('S', pid, i, rid, 'inner-request', inner.get('prio', 0))
+            with w.res2.request(priority=inner.get('prio', 0), preempt=True) as q2:
+                yield q2
+                yield env.timeout(inner.get('hold', 1))
         phase = 'hold'
         yield env.timeout(op.get('hold', 1))
         phase = 'done'
@@ -296,6 +308,10 @@ def putget(w, pid, i, op):
         args = op['amount']
     elif k == 'put':
         item = mk_item(op['item'])
+        if op.get('again'):
+            # the very same object is handed in a second time (a retransmitted packet, a token passed round)
+            cache = w.__dict__.setdefault('objs', {})
+            item = cache.setdefault(repr(item_uid(item)), item)
         req = res.put(item)
         args = item_uid(item)
     else:
@@ -442,6 +458,8 @@ def gen_resource_case(rng, tier):
                       'on_intr': rng.choice(['leave', 'leave', 'rewait', 'release_rewait']), 'exit_exc': rng.random() < 0.5}
                 if rng.random() < 0.04:
                     op['abandon'] = True         # the user process ends without ever releasing
+                elif rng.random() < 0.12:
+                    op['inner'] = {'prio': rng.choice([0, 1, 2, 3]), 'hold': rng.choice(pool)}
                 if rng.random() < 0.15:
                     op['extra'].append('double')
                 if rng.random() < 0.08:
@@ -538,6 +556,12 @@ def gen_store_case(rng, tier):
             if item is False and any(o.get('item') == 0 and o.get('item') is not False for o in cands):
                 continue
             op['item'] = item
+    if kind == 'FilterStore' and not num_items and rng.random() < 0.25:
+        puts = [op for p in procs for op in p['ops'] if op.get('op') == 'put' and isinstance(op.get('item'), (list, dict))]
+        if len(puts) >= 2:
+            a, b = rng.sample(puts, 2)
+            b['item'] = copy.deepcopy(a['item'])
+            a['again'] = b['again'] = True
     if kind == 'PriorityStore':
         # one store holds either PriorityItems or bare tuples, not both (they do not compare)
         pi = rng.random() < 0.5
